@@ -468,7 +468,7 @@ def flex_layout(context, box, bottom_space, skip_stack, containing_block, page_i
             # TODO: Find another way than calling block_level_layout_switch.
             new_child = child.copy()
             new_child, _, _, adjoining_margins, _, _ = block.block_level_layout_switch(
-                context, new_child, -inf, child_skip_stack, parent_box, page_is_empty,
+                context, new_child, -inf, child_skip_stack, parent_box, True,
                 absolute_boxes, fixed_boxes, [], discard, None)
             child._baseline = find_in_flow_baseline(new_child) or 0
             if cross == 'height':
